@@ -39,6 +39,10 @@ T = {
  "C20-2": ("C20", "restore validates node addresses as SocketAddr", "a registered node address with a host name"),
  "C21-1": ("C21", "read_all's batch byte budget cut from 10 MiB to 1 MiB (`RECOVERY_BATCH_BYTES`)", "one WAL record larger than 1 MiB (a large client proposal) followed by a restart: replay stops in front of it"),
  "C21-2": ("C21", "vendored engine copy: batch read records the resume block index per planned range instead of per parsed entry", "a Raft log spanning more than one 10 MiB engine block with fewer than 2000 records per block, restart: only the first block is replayed"),
+ "C22-1": ("C22", "reader's `delivered_in_segment = 0` dropped when it leaves a sealed segment that another node drained", "GETs for one topic through two different nodes after a rollover: the second node enters the next segment with a stale count and skips acknowledged entries"),
+ "C22-2": ("C22", "update_leases returns early when no lease is missing (a node that only loses a lease keeps it)", "rollover to another node, a PUT arriving through a node whose apply lags by that rollover, forwarded to the old leader"),
+ "C23-1": ("C23", "update_leases scans for revocations only when the lease set has to shrink", "a rollover that leaves the node's lease count unchanged (to itself, or one topic lost and one gained) and a late append that is the first lease refresh afterwards"),
+ "C23-2": ("C23", "update_leases returns early when the node leads no topic (the revocation of its last lease is skipped)", "a node whose only led topic rolls over to another node, then a late append for the sealed segment reaching it"),
  "C24-1": ("C24", "oversized-frame drain reads unbounded chunks", "oversized frame whose body is sent, pipelined following frames, body length not a multiple of the chunk size"),
  "C24-2": ("C24", "per-token trimming removes the payload's leading whitespace", "payload beginning with whitespace"),
  "C25-1": ("C25", "parse_wal_key splits at the first `_s_`", "topic whose key contains `_s_` before the separator (name contains `_s_`, ends in `_s`, is `s`, starts with `s_`)"),
